@@ -236,6 +236,8 @@ def encode_to_tbcd(input: Any) -> str:
             output += bits
             return output
 
+    return output
+
 
 def decode_from_tbcd(input: str) -> str:
     offset, output = 0, ""
@@ -249,3 +251,5 @@ def decode_from_tbcd(input: str) -> str:
         else:
             output += bits[1]
             return output
+
+    return output
